@@ -159,6 +159,12 @@ where
         failure_persistence: None,
         rng_seed: RngSeed::Fixed(seed),
         max_shrink_iters: shrink_iters,
+        // shrinking only improves the replay file, never the verdict: time-box it so that a check
+        // that has found a violation reports it well inside the quick ceiling
+        max_shrink_time: match ctx.tier {
+            Tier::Quick => 90_000,
+            Tier::Thorough => 600_000,
+        },
         max_global_rejects: 1,
         ..Config::default()
     };
